@@ -319,6 +319,7 @@ def check(chk, repo, tier):
     tb = elements.function("to_base")
     fb = elements.function("from_base")
     to_base_model(chk, repo, LF, tb)
+    compressed_literals_ignore_the_dictionary_flag(chk, repo)
     from .c08 import tower_unaware_tests
     for fn_ in (tb, fb):
         bad = tower_unaware_tests(fn_)
@@ -349,6 +350,36 @@ def check(chk, repo, tier):
         "up to base**3 + 1 and around base**k (k <= 40) for bases 2..7, 10, "
         "16, 255 (bounded, not exhaustive): digits in range, most "
         "significant first, value preserved.")
+
+
+def compressed_literals_ignore_the_dictionary_flag(chk, repo):
+    """Flag D switches *dictionary* decompression of back-quoted strings off;
+    the base-255 literals »…» and «…« mean the same with and without it."""
+    from ..templates import Gen, GeneratorRaised
+    gen = Gen(repo)
+    TF = repo.mod("transpile").rel
+    enc = gen.it.module("vyxal.encoding")
+    comp = enc.get("compression")
+    payloads = ["", "a", "ab", comp[0], comp[-1] + "a", "λƛ", "0", "1\n"]
+    for kind in ("COMPRESSED_STRING", "COMPRESSED_NUMBER"):
+        bad = None
+        for pl in payloads:
+            try:
+                on = gen.transpile_token(gen.token(kind, pl), 0,
+                                         dict_compress=True)
+                off = gen.transpile_token(gen.token(kind, pl), 0,
+                                          dict_compress=False)
+            except GeneratorRaised:
+                continue
+            if on != off:
+                bad = bad or (pl, on.strip(), off.strip())
+        chk.ob("C15.compressed-literal-independent-of-D", f"token/{kind}",
+               bad is None,
+               (f"payload {bad[0]!r} is emitted as {bad[1]!r} with dictionary "
+                f"compression on and as {bad[2]!r} with it off: under flag D "
+                "the text øc / øC produced no longer evaluates to the value")
+               if bad else "", TF, witness="flag D: «…« literal of `hello`",
+               sample={"kind": kind, "payloads": len(payloads)})
 
 
 def to_base_model(chk, repo, LF, tb):
@@ -405,6 +436,26 @@ def to_base_model(chk, repo, LF, tb):
                 bad = bad or (n, b, f"gives {d!r:.60}"
                               + (f" (digit {out_of_range[0]} outside the "
                                  "base)" if out_of_range else ""))
+    # second use: after the sweep the small bases must still give what they
+    # gave (a digit table grown by the largest base used so far, a remembered
+    # alphabet, ...)
+    for b, n in ((2, 7), (3, 26), (2, 1024), (10, 999)):
+        del out_of_range[:]
+        it.steps = 0
+        n_runs += 1
+        try:
+            d = f(n, b, ctx)
+        except PRaise as exc:
+            bad = bad or (n, b, f"raises {exc.cls_name} on a second use")
+            continue
+        val = 0
+        okd = isinstance(d, list) and not out_of_range
+        for x in (d if isinstance(d, list) else []):
+            okd = okd and isinstance(x, int) and 0 <= x < b
+            val = val * b + (x if isinstance(x, int) else 0)
+        if not okd or val != n:
+            bad = bad or (n, b, f"gives {d!r:.60} after larger bases were "
+                                "used in the same process")
     chk.unit("to_base runs (interpreted, bounded)", n_runs)
     chk.ob("C15.base-conversion-digits", "elements.to_base", bad is None,
            f"to_base({bad[0]}, {bad[1]}) {bad[2]}: the digits must be inside "
